@@ -5,6 +5,7 @@ import (
 	"errors"
 	"fmt"
 	"io"
+	"math/rand"
 	"os"
 	"path/filepath"
 	"sort"
@@ -581,6 +582,45 @@ func (w *world) dumpView(tx database.Tx, divs *[]divergence) viewDump {
 			if v.blk[b].fetchOK {
 				okHashes = append(okHashes, w.cc.hash[b])
 				okNames = append(okNames, b)
+			}
+		}
+		if len(okNames) >= 2 {
+			// bulk region fetch over several blocks (stored and pending), in
+			// orders that differ from the storage order, with a different
+			// (offset, length) per block: every reply must be that part of
+			// that block
+			orders := [][]string{append([]string{}, okNames...), nil, nil}
+			for i := len(okNames) - 1; i >= 0; i-- {
+				orders[1] = append(orders[1], okNames[i])
+			}
+			orders[2] = append([]string{}, okNames...)
+			rng := rand.New(rand.NewSource(w.r.ctx.Seed*1000003 + w.evals))
+			rng.Shuffle(len(orders[2]), func(i, j int) { orders[2][i], orders[2][j] = orders[2][j], orders[2][i] })
+			for _, ord := range orders {
+				regs := make([]database.BlockRegion, len(ord))
+				hs := make([]chainhash.Hash, len(ord))
+				for j, b := range ord {
+					hs[j] = w.cc.hash[b]
+					regs[j] = database.BlockRegion{Hash: &hs[j], Offset: uint32(1 + 5*j + rng.Intn(7)), Len: uint32(7 + 3*j + rng.Intn(5))}
+				}
+				got, err := tx.FetchBlockRegions(regs)
+				w.evals++
+				if err != nil || len(got) != len(regs) {
+					*divs = append(*divs, divergence{"fidelity:bulk-regions", fmt.Sprintf("FetchBlockRegions over blocks %v: %v", ord, err)})
+					break
+				}
+				bad := false
+				for j, b := range ord {
+					want := w.cc.raw[b][regs[j].Offset : regs[j].Offset+regs[j].Len]
+					if !bytes.Equal(got[j], want) {
+						*divs = append(*divs, divergence{"fidelity:bulk-regions", fmt.Sprintf("FetchBlockRegions over blocks %v: reply %d (block %s, offset %d, len %d) is %x, stored bytes are %x", ord, j, b, regs[j].Offset, regs[j].Len, got[j], want)})
+						bad = true
+						break
+					}
+				}
+				if bad {
+					break
+				}
 			}
 		}
 		if len(okHashes) > 0 {
